@@ -451,6 +451,29 @@ package badger
 //@   assert[candidate-returned] before return#4 : result0 == maxVs && result1 == nil
 //@   assert[error-stops] before return#2 : result1 != nil && ret1(get#1) != nil
 
+// Managed write batches commit at the caller's timestamp: the batch and its first internal
+// transaction both carry it (later internal transactions get it in WriteBatch.commit).
+//@ func (*DB).NewWriteBatchAt
+//@   props C36 C27
+//@   light
+//@   assert[managed-batch] before call newWriteBatch : arg0 == db && arg1
+//@   assert[commit-ts-on-batch-and-txn] before return : result == ret(newWriteBatch#1) && result.commitTs == commitTs && result.txn.commitTs == commitTs
+
+//@ func (*DB).newWriteBatch
+//@   props C27 C36
+//@   light
+//@   assert[fresh-update-txn-in-batch-mode] before call newTransaction : arg0 == db && arg1 && arg2 == isManaged
+//@   assert[batch-remembers-mode] before return : result != nil && result.db == db && result.isManaged == isManaged && result.txn == ret(newTransaction#1)
+
+// commitPrecheck: a discarded transaction cannot commit; in managed mode a commit without
+// explicit per-entry versions needs a non-zero commit timestamp.
+//@ func (*Txn).commitPrecheck
+//@   props C36 C03
+//@   light
+//@   assert[discarded-refused] before return#1 : result != nil && txn.discarded
+//@   assert[zero-commit-ts-refused] before return#2 : result != nil && keepTogether && txn.db.opt.managedTxns && txn.commitTs == 0
+//@   assert[otherwise-ok] before return#3 : result == nil && !txn.discarded
+
 // ---- write batches (C27): every operation lands in some internal transaction ----
 
 // handleEntry: the entry goes into the current transaction; only when that transaction is full
